@@ -711,10 +711,20 @@ fn replay_one(beh: &Value, work: &str, idx: usize) -> Value {
 				let bs = sets_of(&s["bs"]);
 				let head = n.chain.head_header().unwrap();
 				let mut prev = n.chain.get_header_by_height(head.height - d).unwrap();
-				let diff = if bs.len() as u64 > d { 100 } else { (100 * d) / (bs.len() as u64) + 10 };
+				// work being replaced: the new branch stays behind (status Fork) until its last block overtakes
+				let replaced = head.total_difficulty().to_num() - prev.total_difficulty().to_num();
+				let m = bs.len() as u64;
+				let each = std::cmp::max(1, replaced / m);
 				let mut statuses = vec![];
 				let mut failed = false;
-				for atoms in &bs {
+				for (bi, atoms) in bs.iter().enumerate() {
+					let diff = if d == 0 {
+						100
+					} else if (bi as u64) + 1 < m {
+						each
+					} else {
+						replaced - each * (m - 1) + 10
+					};
 					let txs: Vec<Transaction> = atoms.iter().map(|a| w.txs[a].clone()).collect();
 					let fees: u64 = txs.iter().map(|t| t.fee()).sum();
 					n.blocks_made += 1;
